@@ -18,7 +18,7 @@ for p in props:
                 "evidence_file": "/verif/evidence/%s.json" % pid,
                 "replay_cmd_template": "bin/check %s --replay {path}" % pid,
                 "engine": "coq-model+correspondence",
-                "level_claimed": {"category": getattr(m, "LEVEL", "proof"), "text": m.LEVEL_TEXT, "design_ref": "DESIGN.md section 5 (%s)" % pid},
+                "level_claimed": {"category": getattr(m, "LEVEL", "proof"), "text": m.LEVEL_TEXT, "design_ref": "DESIGN.md section A.3, row %s" % pid},
                 "level_note": m.LEVEL_NOTE,
                 "technique": m.TECHNIQUE,
             })
